@@ -313,6 +313,33 @@ func Strip(v ssa.Value) ssa.Value {
 			v = x.X
 		case *ssa.MakeInterface:
 			v = x.X
+		case *ssa.UnOp:
+			// a parameter (or single-assignment local) that go/ssa keeps in a
+			// cell because some literal captures it
+			if st := localSingleStore(x); st != nil {
+				if _, isP := st.Val.(*ssa.Parameter); isP {
+					v = st.Val
+					continue
+				}
+			}
+			// ... seen from inside the literal that captures it
+			if fv, isFV := x.X.(*ssa.FreeVar); isFV && x.Op == token.MUL && deepProg != nil {
+				if root := deepProg.Census().Root(fv); root != nil && !deepProg.Census().CellStoredByClosure(root) {
+					var val ssa.Value
+					n := 0
+					for _, r := range Referrers(root) {
+						if st, isS := r.(*ssa.Store); isS && st.Addr == ssa.Value(root) {
+							val = st.Val
+							n++
+						}
+					}
+					if q, isP := val.(*ssa.Parameter); isP && n == 1 {
+						v = q
+						continue
+					}
+				}
+			}
+			return v
 		default:
 			return v
 		}
